@@ -454,6 +454,23 @@ func (this *Dataset) getPartitionForId(id uuid.UUID) *partition {
 	return this.partitions[utils.UuidMod(id, uint64(this.Meta().GetPartitionCount()))]
 }
 
+// A dataset that is known already keeps its partitions when a catalogue snapshot is restored, but their
+// replica sets may have changed in entries that the snapshot replaces
+func (this *Dataset) restoreReplicaSets(meta *pb.Dataset) error {
+	for _, partitionMeta := range meta.GetPartitions() {
+		partitionId, err := uuid.FromBytes(partitionMeta.GetId())
+		if err != nil {
+			return err
+		}
+		partition, err := this.getPartition(partitionId)
+		if err != nil {
+			return err
+		}
+		partition.setNodes(partitionMeta.GetNodeIds())
+	}
+	return nil
+}
+
 func (this *Dataset) checkDimension(value *math.Vector) error {
 	if uint32(len(*value)) != this.Meta().GetDimension() {
 		return DimensionMissmatchErr
